@@ -86,6 +86,9 @@ def gen_quantiles(rng, n):
     out = []
     for _ in range(n):
         d = gen_dist(rng, ["normal", "normal", "mix", "mix", "mix", "det", "trainable"])
+        if d["kind"] == "normal" and rng.random() < 0.15:
+            d["scale"] = 0.0  # the jitter-free end of a scale sweep: every sample and every quantile is loc
+            d["loc"] = rng.choice([0.0, 0.01, round(rng.uniform(0.001, 0.5), 4)])
         if d["kind"] == "mix":
             qs = sorted(set([round(rng.uniform(0.01, 0.99), 4) for _ in range(3)] + rng.sample([0.01, 0.05, 0.25, 0.5, 0.75, 0.9, 0.95, 0.99], 2)))
         else:
